@@ -6,6 +6,7 @@
 package auditlog
 
 import (
+	"fmt"
 	"io"
 	"io/fs"
 	"log"
@@ -90,20 +91,29 @@ func (cl concurrentWriter) Write(al plugintypes.AuditLog) error {
 	cl.mux.Lock()
 	defer cl.mux.Unlock()
 
-	cl.log.Printf("%s %s - - [%s]", al.Transaction().ClientIP(), al.Transaction().HostIP(), al.Transaction().Timestamp())
+	// Same output as log.Printf, but a failed write of the index entry is
+	// reported to the caller instead of being discarded.
+	var werr error
+	printf := func(format string, v ...any) {
+		if err := cl.log.Output(2, fmt.Sprintf(format, v...)); err != nil && werr == nil {
+			werr = err
+		}
+	}
+
+	printf("%s %s - - [%s]", al.Transaction().ClientIP(), al.Transaction().HostIP(), al.Transaction().Timestamp())
 	if al.Transaction().HasRequest() {
-		cl.log.Printf(
+		printf(
 			` "%s %s %s"`,
 			al.Transaction().Request().Method(),
 			al.Transaction().Request().URI(),
 			al.Transaction().Request().HTTPVersion())
 	}
 	if al.Transaction().HasResponse() {
-		cl.log.Printf(` %d`, al.Transaction().Response().Status())
+		printf(` %d`, al.Transaction().Response().Status())
 	}
-	cl.log.Printf("%s - %s\n", al.Transaction().ID(), filepath)
+	printf("%s - %s\n", al.Transaction().ID(), filepath)
 
-	return nil
+	return werr
 }
 
 var _ plugintypes.AuditLogWriter = (*concurrentWriter)(nil)
